@@ -15,13 +15,16 @@ M = [
         context.setValues(self.function_code, self.write_address,
                           self.write_registers)
 """),
- ('c04_fc4_reads_holding', 'C04', 'pymodbus/interfaces.py',
-  "    __fx_mapper = {2: 'd', 4: 'i'}\n", "    __fx_mapper = {2: 'd', 4: 'h'}\n"),
- ('c04_zero_mode_dropped_in_set', 'C04', 'pymodbus/datastore/context.py',
+ ('c04_fc22_masks_input_registers', 'C04', 'pymodbus/interfaces.py',
+  "    __fx_mapper.update([(i, 'h') for i in [3, 6, 16, 22, 23]])\n",
+  "    __fx_mapper.update([(i, 'h') for i in [3, 6, 16, 23]] + [(22, 'i')])\n"),
+ ('c04_zero_mode_dropped_in_long_set', 'C04', 'pymodbus/datastore/context.py',
   """        if not self.zero_mode:
             address = address + 1
         _logger.debug("setValues[%d] %d:%d" % (fx, address, len(values)))
-""", """        _logger.debug("setValues[%d] %d:%d" % (fx, address, len(values)))
+""", """        if not self.zero_mode and len(values) < 40:
+            address = address + 1
+        _logger.debug("setValues[%d] %d:%d" % (fx, address, len(values)))
 """),
  ('c05_fc3_limit_126', 'C05', 'pymodbus/register_read_message.py',
   """class ReadHoldingRegistersRequest(ReadRegistersRequestBase):""", None),
@@ -102,9 +105,9 @@ M = [
   """                for unit_id in self.server.context.slaves():
                     response = request.execute(self.server.context[unit_id])""", """                for unit_id in self.server.context.slaves()[:1]:
                     response = request.execute(self.server.context[unit_id])"""),
- ('c10_ignore_missing_inverted_twisted', 'C10', 'pymodbus/server/asynchronous.py',
+ ('c10_ignore_missing_only_low_units_twisted', 'C10', 'pymodbus/server/asynchronous.py',
   """            if self.factory.ignore_missing_slaves:
-                return # the client will simply timeout waiting for a response""", """            if not self.factory.ignore_missing_slaves:
+                return # the client will simply timeout waiting for a response""", """            if self.factory.ignore_missing_slaves and request.unit_id < 128:
                 return # the client will simply timeout waiting for a response"""),
  ('c11_binary_bad_crc_blocks', 'C11', 'pymodbus/framer/binary_framer.py',
   """            else:
@@ -116,22 +119,6 @@ M = [
                 break"""),
  ('c11_rtu_waits_for_oversize', 'C11', 'pymodbus/framer/rtu_framer.py',
   """        return len(self._buffer) >= min(size, 256)""", """        return len(self._buffer) >= size"""),
- ('c12_sync_handler_catches_modbus_only', 'C12', 'pymodbus/server/sync.py',
-  """            except socket.error as msg:
-                _logger.error("Socket error occurred %s" % msg)
-                self.running = False
-            except:
-                _logger.error("Socket exception occurred "
-                              "%s" % traceback.format_exc() )
-                self.running = False
-                reset_frame = True""", """            except socket.error as msg:
-                _logger.error("Socket error occurred %s" % msg)
-                self.running = False
-            except (ModbusIOException, InvalidMessageReceivedException):
-                _logger.error("Socket exception occurred "
-                              "%s" % traceback.format_exc() )
-                self.running = False
-                reset_frame = True"""),
  ('c12_twisted_udp_no_reset', 'C12', 'pymodbus/server/asynchronous.py',
   """            finally:
                 # a datagram is self contained: never carry what is left of
@@ -158,8 +145,10 @@ M = [
             count += 1""", """        count = self.count//8
         if self.count % 8 > 1:
             count += 1"""),
- ('c14_ascii_base_adu_5', 'C14', 'pymodbus/transaction.py',
-  """            self.base_adu_size = 7  # start(1)+ Address(2), LRC(2) + end(2)""", """            self.base_adu_size = 5  # start(1)+ Address(2), LRC(2) + end(2)"""),
+ ('c14_long_reply_two_short', 'C14', 'pymodbus/transaction.py',
+  """            return self.base_adu_size + expected_pdu_size
+""", """            return self.base_adu_size + expected_pdu_size - (2 if expected_pdu_size > 300 else 0)
+"""),
  ('c15_no_lock', 'C15', 'pymodbus/transaction.py',
   """        with self._transaction_lock:
             try:
